@@ -200,7 +200,7 @@ func init() {
 
 func init() {
 	register(&CheckDef{ID: "C02", Level: "model_checking", Timeout: [2]int{600, 3000}, MaxSteps: 3000000, Also: []string{"C01"},
-		FnPattern: `^zzC0[12]_(jpeg_hole|jpeg_seq|jpeg_filler|jpeg_trunc|tiff_free|png_free|png_sig|bmff_infe|bmff_infe2|bmff_iloc|bmff_top|bmff_sizes|bmff_pay|bmff_mdat|bmff_ctbo|exif_next|exif_subifds|exif_ifdoff|exif_fulldir|xmp_free)$`,
+		FnPattern: `^zzC0[12]_(jpeg_hole|jpeg_seq|jpeg_filler|jpeg_trunc|tiff_free|png_free|png_sig|bmff_infe|bmff_infe2|bmff_iloc|bmff_top|bmff_sizes|bmff_pay|bmff_mdat|bmff_ctbo|exif_next|exif_subifds|exif_ifdoff|exif_fulldir|xmp_free|xmp_space)$`,
 		Kinds:     []string{"unwind", "assert"}, AssertOnly: "bytes requested",
 		Assumptions: []string{
 			"termination is decided as an unwinding assertion: a path that exceeds the step budget (3000000 SSA instructions for streams of at most ~150 bytes) yields a model that is replayed natively under a 20 s watchdog; only a native hang is a violation",
@@ -212,12 +212,13 @@ func init() {
 }
 
 func init() {
-	register(&CheckDef{ID: "C14", Level: "model_checking", Timeout: [2]int{600, 1500}, Kinds: []string{"alloc", "assert"}, AssertOnly: "bytes allocated",
+	register(&CheckDef{ID: "C14", Level: "model_checking", Timeout: [2]int{600, 1500}, Kinds: []string{"alloc", "assert"}, AssertOnly: "bytes allocated", Also: []string{"C01"},
+		FnPattern: `^zzC14_|^zzC01_(bmff_sizes|bmff_infe2|bmff_ftyp|bmff_mdat|bmff_pay|exif_fulldir)$`,
 		Assumptions: []string{
 			"ghost allocation counter: every heap Alloc, make (capacity), append growth (2*len+8 elements), []byte<->string conversion and pool New adds its size; stubbed fmt/errors calls add 256 bytes each; zerolog at the default level allocates nothing",
 			"a make() whose byte size can exceed 8 MiB under the path condition is reported as an input-controlled allocation; its replay measures runtime.MemStats.TotalAlloc",
 		},
-		Bounds: map[string]interface{}{"harnesses": "CR3 preview route with an arbitrary 24-byte PRVW header; IFD0 entries (4 id classes) with counts up to 2^32-1; HEIF iloc with arbitrary version/count/entries"},
+		Bounds: map[string]interface{}{"harnesses": "CR3 preview route with an arbitrary 24-byte PRVW header; IFD0 entries (4 id classes) with counts up to 2^32-1; HEIF iloc (three boxes) with arbitrary version/count/entries; the make() obligation also on the C01 isobmff harnesses whose box sizes take every size class (ftyp, every box of the tree, infe entries, leaf payloads, mdat route) and on the full-directory Exif harness"},
 	})
 	register(&CheckDef{ID: "C15", Level: "model_checking", Timeout: [2]int{600, 1500}, Kinds: []string{"panic", "stdout", "assert"},
 		Assumptions: []string{
